@@ -285,9 +285,26 @@ def wfunc(repo, rel, qual):
 # ----------------------------------------------------------------------
 # enumeration of the summary stores of a function
 
-def literal_loop_envs(loop):
-    """[{name: node}] for `for a, b in [(x, y), ...]` (or a single name)"""
+def literal_loop_envs(loop, resolver=None):
+    """[{name: node}] for `for a, b in [(x, y), ...]` (or a single name);
+    a plain name as iterable is resolved by `resolver(name) -> node|None`
+    (single-assignment local / module-level constant)"""
     it = loop.iter
+    hops = 0
+    while isinstance(it, ast.Name) and resolver is not None and hops < 4:
+        it = resolver(it.id)
+        hops += 1
+    if isinstance(it, (ast.ListComp, ast.GeneratorExp)) \
+            and len(it.generators) == 1 \
+            and isinstance(it.elt, ast.Name) \
+            and isinstance(it.generators[0].target, ast.Name) \
+            and it.elt.id == it.generators[0].target.id:
+        # a selection from a literal: fold the superset
+        it = it.generators[0].iter
+        while isinstance(it, ast.Name) and resolver is not None \
+                and hops < 6:
+            it = resolver(it.id)
+            hops += 1
     if not isinstance(it, (ast.List, ast.Tuple)):
         return None
     tg = loop.target
@@ -304,9 +321,27 @@ def literal_loop_envs(loop):
     return envs
 
 
-def summary_stores(func):
+def name_resolver(repo, rel, func):
+    """name -> value node: local with one assignment in `func`, else a
+    module-level constant of `rel`"""
+    def res(name):
+        defs = [n for n in walk(func) if isinstance(n, ast.Assign)
+                and any(isinstance(t, ast.Name) and t.id == name
+                        for t in n.targets)]
+        if len(defs) == 1:
+            return defs[0].value
+        if defs:
+            return None
+        return repo.module_assign(rel, name, missing_ok=True)
+    return res
+
+
+def summary_stores(func, resolver=None, unresolved=None):
     """[(uname, store stmt, env)] for `<x>.attrs[K] = V` with K resolving
-    to min/max/mean (directly or through a loop over a literal list)"""
+    to min/max/mean (directly or through a loop over a literal list).
+    Stores whose key comes from a loop that cannot be folded are appended
+    to `unresolved` (verbatim `dst.attrs[k] = src.attrs[k]` copies are not
+    summary logic and are skipped)."""
     out = []
     for n in walk(func):
         if not (isinstance(n, ast.Assign) and len(n.targets) == 1):
@@ -319,12 +354,18 @@ def summary_stores(func):
         if const_str(k) in NAMES:
             out.append((const_str(k), n, {}))
         elif isinstance(k, ast.Name):
+            verbatim = isinstance(n.value, ast.Subscript) and isinstance(
+                n.value.value, ast.Attribute) \
+                and n.value.value.attr == "attrs" \
+                and txt(n.value.slice) == k.id
             for a in ancestors(n):
                 if a is func:
                     break
                 if isinstance(a, ast.For) and k.id in names_in(a.target):
-                    envs = literal_loop_envs(a)
+                    envs = literal_loop_envs(a, resolver)
                     if envs is None:
+                        if unresolved is not None and not verbatim:
+                            unresolved.append(n)
                         break
                     for env in envs:
                         if const_str(env.get(k.id)) in NAMES:
@@ -500,7 +541,11 @@ class Prov:
 
 def r201(ctx, repo):
     wn = wfunc(repo, WR, "RTDCWriter.write_ndarray")
-    stores = summary_stores(wn)
+    unres = []
+    stores = summary_stores(wn, name_resolver(repo, WR, wn), unres)
+    if unres:
+        raise AnalysisError(f"write_ndarray: attribute names of "
+                            f"`{short(unres[0], 40)}` cannot be folded")
     if not stores:
         raise AnalysisError("write_ndarray: no summary attributes stored")
     got = {u for u, _, _ in stores}
@@ -728,10 +773,7 @@ def reader_table(cls, repo=None, rel=None):
         v = const_str(e)
         if v is None and isinstance(e, ast.Name) and repo is not None:
             m = repo.module_assign(rel, e.id, missing_ok=True)
-            if m is None:
-                raise AnalysisError(f"{cls.name}: attribute name "
-                                    f"`{e.id}` cannot be resolved")
-            v = const_str(m)
+            v = const_str(m) if m is not None else None
         return v
     out = {}
     for f in cls.body:
@@ -751,15 +793,37 @@ def r202(ctx, repo, wtable, wn):
                f"writer computes {u} with {sorted(reds)}", node=wn,
                key=f"{WR}::RTDCWriter.write_ndarray::table {u}")
     cp = wfunc(repo, CP, "rtdc_copy")
-    cstores = summary_stores(cp)
+    unres = []
+    cstores = summary_stores(cp, name_resolver(repo, CP, cp), unres)
+    if unres:
+        raise AnalysisError(f"rtdc_copy: attribute names of "
+                            f"`{short(unres[0], 40)}` cannot be folded")
     ctab = {}
     for u, st, env in cstores:
         v = st.value
-        if not (isinstance(v, ast.Call) and len(v.args) == 1):
+        f = v.func if isinstance(v, ast.Call) else None
+        src = None
+        if isinstance(f, ast.Call) and call_name(f) == "getattr" \
+                and len(f.args) == 2 and not v.args:
+            # getattr(obj, <name>)(): the method <name> of obj
+            obj = f.args[0]
+            res = name_resolver(repo, CP, cp)
+            od = res(obj.id) if isinstance(obj, ast.Name) else obj
+            if not isinstance(od, ast.Call) or not od.args:
+                raise AnalysisError("rtdc_copy: summary completion form "
+                                    "lost")
+            red = f"{call_name(od)}(..).{u}"
+            src = od.args[0]
+        elif isinstance(v, ast.Call) and len(v.args) == 1:
+            red = _np(dotted(env[f.id])) if isinstance(f, ast.Name) \
+                and f.id in env else _np(dotted(f))
+            src = v.args[0]
+        else:
             raise AnalysisError("rtdc_copy: summary completion form lost")
-        f = v.func
-        red = _np(dotted(env[f.id])) if isinstance(f, ast.Name) \
-            and f.id in env else _np(dotted(f))
+        if red is None:
+            raise AnalysisError(f"rtdc_copy: reducer of "
+                                f"`{short(v, 40)}` not recognised")
+        st.c20_source = src
         ctab[u] = (red, st, v)
     for u in NAMES:
         if u not in ctab:
@@ -830,20 +894,18 @@ def check_fetch(ctx, rel, cls, cname):
     ctx.ob("R20.3", ok, f"{cname}: the cached value is looked up under the "
            f"requested name" if ok else f"{cname}: the cache is not read "
            f"under `{uname}`", node=f, label="cache lookup by name")
-    comp = [d for d in assigns if d is not cached[0]
-            and isinstance(d.value, ast.Call)]
-    if len(comp) != 1:
+    rets = [n for n in walk(f) if isinstance(n, ast.Return)]
+    if not rets:
+        raise AnalysisError(f"{cname}._fetch_ufunc_attr: no return")
+    out_names = {r.value.id for r in rets if isinstance(r.value, ast.Name)}
+    out_names |= {txt(n.value) for n in walk(f) if isinstance(n, ast.Assign)
+                  and isinstance(n.targets[0], ast.Subscript)
+                  and is_self_attr(n.targets[0].value, "_ufunc_attrs")}
+    comps = [d for d in assigns if d is not cached[0]
+             and isinstance(d.value, ast.Call)
+             and d.targets[0].id in out_names]
+    if not comps:
         raise AnalysisError(f"{cname}._fetch_ufunc_attr: fallback form")
-    comp = comp[0]
-    X = comp.targets[0].id
-    ok = txt(comp.value.func) == ufunc and len(comp.value.args) == 1 \
-        and not comp.value.keywords and txt(comp.value.args[0]) in (
-            "self.__array__()", "self[:]", "np.asarray(self)")
-    ctx.ob("R20.3", ok, f"{cname}: a missing value is computed with the "
-           f"given reducer over the object's own data" if ok else
-           f"{cname}: fallback `{short(comp.value, 40)}` is not "
-           f"`{ufunc}(own data)`", node=comp,
-           label="fallback computes from own data")
 
     def none_fact(e, truth):
         if isinstance(e, ast.Compare) and len(e.ops) == 1 and isinstance(
@@ -852,12 +914,27 @@ def check_fetch(ctx, rel, cls, cname):
             return (isinstance(e.ops[0], ast.Is) and truth) or (
                 isinstance(e.ops[0], ast.IsNot) and not truth)
         return False
-    c_ids = cfg.ids_of(comp)
-    ok = all(guarded_by(cfg, i, none_fact) for i in c_ids)
-    ctx.ob("R20.3", ok, f"{cname}: computed only when nothing is cached"
-           if ok else f"{cname}: the fallback is not guarded by "
-           f"`{C} is None`", node=comp, label="fallback only when missing",
-           nontrivial=False)
+    for k, comp in enumerate(comps):
+        sfx = "" if len(comps) == 1 else f" [{k}]"
+        ok = txt(comp.value.func) == ufunc and len(comp.value.args) == 1 \
+            and not comp.value.keywords and txt(comp.value.args[0]) in (
+                "self.__array__()", "self[:]", "np.asarray(self)")
+        ctx.ob("R20.3", ok, f"{cname}: a missing value is computed with the "
+               f"given reducer over the object's own data" if ok else
+               f"{cname}: fallback `{short(comp.value, 40)}` is not "
+               f"`{ufunc}(own data)`", node=comp,
+               label="fallback computes from own data" + sfx)
+        ok = all(guarded_by(cfg, i, none_fact) for i in cfg.ids_of(comp))
+        ctx.ob("R20.3", ok, f"{cname}: computed only when nothing is cached"
+               if ok else f"{cname}: the fallback is not guarded by "
+               f"`{C} is None`", node=comp,
+               label="fallback only when missing" + sfx, nontrivial=False)
+    xs = {c.targets[0].id for c in comps}
+    if len(xs) != 1:
+        raise AnalysisError(f"{cname}._fetch_ufunc_attr: several result "
+                            f"names {sorted(xs)}")
+    X = xs.pop()
+    c_ids = [i for c in comps for i in cfg.ids_of(c)]
     st = [n for n in walk(f) if isinstance(n, ast.Assign)
           and isinstance(n.targets[0], ast.Subscript)
           and is_self_attr(n.targets[0].value, "_ufunc_attrs")]
@@ -876,9 +953,6 @@ def check_fetch(ctx, rel, cls, cname):
     # what is returned
     after = cfg.reach(c_ids)
     bad = []
-    rets = [n for n in walk(f) if isinstance(n, ast.Return)]
-    if not rets:
-        raise AnalysisError(f"{cname}._fetch_ufunc_attr: no return")
     for r in rets:
         name = r.value.id if isinstance(r.value, ast.Name) else None
         post = bool(set(cfg.ids_of(r)) & after)
@@ -954,10 +1028,11 @@ def r203(ctx, repo, cstores):
     for u, st, env in cstores:
         v = st.value
         tgt = txt(st.targets[0].value.value)
-        ok = txt(v.args[0]) in (tgt, f"{tgt}[:]")
+        srcx = getattr(st, "c20_source", None)
+        ok = srcx is not None and txt(srcx) in (tgt, f"{tgt}[:]")
         ctx.ob("R20.3", ok, f"copier computes a missing {u} from the copied "
                f"dataset" if ok else f"copier computes {u} from "
-               f"`{short(v.args[0], 30)}`, not from the copied dataset",
+               f"`{short(srcx, 30)}`, not from the copied dataset",
                node=st, key=f"{CP}::rtdc_copy::completion source {u}")
         keyname = txt(st.targets[0].slice)
 
@@ -970,6 +1045,22 @@ def r203(ctx, repo, cstores):
             return False
         ok = all(guarded_by(cp_cfg, i, missing_fact)
                  for i in cp_cfg.ids_of(st))
+        if not ok:
+            # `for attr in [a for a in (...) if a not in dst.attrs]`
+            res = name_resolver(repo, CP, _func_of(st))
+            for lp in ancestors(st):
+                if isinstance(lp, ast.For) and keyname in names_in(
+                        lp.target):
+                    it = lp.iter
+                    if isinstance(it, ast.Name):
+                        it = res(it.id)
+                    if isinstance(it, (ast.ListComp, ast.GeneratorExp)) \
+                            and len(it.generators) == 1 and isinstance(
+                            it.generators[0].target, ast.Name):
+                        g = it.generators[0]
+                        ok = any(missing_fact(c, True, g.target.id, tgt)
+                                 for c in g.ifs)
+                    break
         ctx.ob("R20.3", ok, f"copier completes {u} only when it is missing"
                if ok else f"copier overwrites / skips {u} regardless of "
                f"presence", node=st,
@@ -987,7 +1078,8 @@ def r203(ctx, repo, cstores):
         if ".attrs[" not in repo.src(rel):
             continue
         for q, fn in repo.all_functions(rel):
-            for u, st, env in summary_stores(fn):
+            for u, st, env in summary_stores(
+                    fn, name_resolver(repo, rel, fn)):
                 n_sites += 1
                 ok = (rel, q) in allowed
                 ctx.ob("R20.3", ok, f"summary '{u}' stored by {q}" if ok
@@ -1226,6 +1318,20 @@ def _repopulate_in_helper(src):
         "    def apply_filter(self, *args, **kwargs):\n", 0)
 
 
+def _copier_table_as_constant(src):
+    old = ('[(np.nanmin, "min"),\n'
+           '                                        (np.nanmax, "max"),\n'
+           '                                        (np.nanmean, "mean"),\n'
+           '                                        ]:')
+    head = "\n\ndef rtdc_copy("
+    if src.count(old) != 1 or src.count(head) != 1:
+        return src
+    src = src.replace(old, "_SCALAR_UFUNC_ATTRS:")
+    return src.replace(
+        head, '\n\n_SCALAR_UFUNC_ATTRS = (\n    (np.nanmin, "min"),\n'
+        '    (np.nanmax, "max"),\n    (np.nanmean, "mean"),\n)\n' + head)
+
+
 MUTANTS = [
     # R20.1
     ("writer: max of a block with np.max", WR,
@@ -1330,6 +1436,8 @@ TWINS = [
      _summaries_in_helper),
     ("cache reset extracted into _repopulate_events()", HB,
      _repopulate_in_helper),
+    ("copier table as a module-level constant", CP,
+     _copier_table_as_constant),
     ("copier completion with early continue", CP,
      ("                        if attr not in dst.attrs:\n"
       "                            dst.attrs[attr] = ufunc(dst)\n",
